@@ -68,3 +68,25 @@ Proof.
   split; [exact RegexLangProofs.exD_accepts_77|split; [exact RegexLangProofs.exD_rejects_8|exact RegexLangProofs.exD_run_77]].
 Qed.
 Print Assumptions C18_language_nonvacuous.
+
+(* Sub-probability: a weighted automaton over the rationals with non-negative weights whose every state has outgoing
+   arc weights plus final weight at most one, and initial mass at most one, gives the set of ALL strings of length
+   <= n over any alphabet V total weight at most one, for every n (proofs/SubProbProofs.v); the automaton built from a
+   DFA whose transition map has one entry per state (a Python dict) is such an automaton. *)
+From GV.proofs Require ProductProofs SubProbProofs.
+Theorem C18_subprobability : forall (V charset : list nat) (D : dfa), NoDup V -> NoDup (map fst (d_map D)) ->
+  forall n, (bsum (S:=QcSR) (ProductProofs.words_le V n) (fun xs => Wfsa.pathsum (RegexLangProofs.re_wfsa charset D) xs) <= 1)%Qc.
+Proof. intros V charset D HV HD n. exact (SubProbProofs.re_subprobability V charset D HV HD n). Qed.
+Print Assumptions C18_subprobability.
+
+Theorem C18_substochastic_automata : forall (V : list nat) (m : Wfsa.wfsa QcSR), NoDup V -> SubProbProofs.nonneg_wfsa m ->
+  (forall q, SubProbProofs.state_mass m q <= 1)%Qc -> (bsum (S:=QcSR) (Wfsa.winit m) (fun e => snd e) <= 1)%Qc ->
+  forall n, (bsum (S:=QcSR) (ProductProofs.words_le V n) (fun xs => Wfsa.pathsum m xs) <= 1)%Qc.
+Proof. intros V m HV Hn Hm Hi n. exact (SubProbProofs.substochastic_language V m HV Hn Hm Hi n). Qed.
+Print Assumptions C18_substochastic_automata.
+
+Example C18_subprobability_nonvacuous :
+  bsum (S:=QcSR) (ProductProofs.words_le [7; 8]%nat 3) (fun xs => Wfsa.pathsum (RegexLangProofs.re_wfsa [7; 8]%nat RegexLangProofs.exD) xs) = Q2Qc (7 # 8) /\
+  forall n, (bsum (S:=QcSR) (ProductProofs.words_le [7; 8]%nat n) (fun xs => Wfsa.pathsum (RegexLangProofs.re_wfsa [7; 8]%nat RegexLangProofs.exD) xs) <= 1)%Qc.
+Proof. split; [exact SubProbProofs.exD_total_3|exact SubProbProofs.exD_subprobability]. Qed.
+Print Assumptions C18_subprobability_nonvacuous.
